@@ -95,6 +95,8 @@ def run(rep, tier):
         rep.call(index_rules.cropped_row_slices, rep, prog, "C05.view-rect")
         from . import c12
         rep.call(c12.skip_arm, rep, prog, "C05.fallible-write")
+        from . import c13
+        rep.call(c13.step_count, rep, prog, "C05.step-count")
         rep.call(storewidth.check, rep, prog, "C05.storewidth", storewidth.FLOOR.get(cfg, 40))
         if cfg.startswith("x86"):
             rep.call(loadwidth.chunk_store, rep, prog, "C05.chunk-store")
